@@ -620,14 +620,14 @@ class EncodeCatRows(Filter[Iterable[Union[Any,Dense,Sparse]], Iterable[Union[Any
         if not catkeys:
             yield from rows
         else:
-            #cat_cols is list of keys (positions or sparse keys) or list of lists
-            is_nums = not isinstance(catkeys[0],list)
+            #catkeys holds plain keys (positions or sparse keys) and, for nested values, [key,list] pairs
+            is_flat = not any(isinstance(k,list) for k in catkeys)
             for row in rows:
                 row = list(row) if isinstance(row,tuple) else copy(row)
 
-                if is_nums:
+                if is_flat:
                     catset(row,catkeys)
                 else:
-                    for k in catkeys: catset(row,k)
+                    for k in catkeys: catset(row,k if isinstance(k,list) else [k])
 
                 yield row
